@@ -72,7 +72,9 @@ def observe (confs start limit lastHeight height : Nat) (v : View) : Out :=
     | .err => .failed
     | .ok firstSeen =>
       if firstSeen > wrapU32 (start + limit) then .failed
-      else if Int.ofNat height - (Int.ofNat firstSeen - 1) ≥ Int.ofNat confs then .confirmed
+      -- the depth is counted up to the handed height or the tip the answers refer to, whichever is lower
+      -- (a reorganisation can leave the node with a shorter best chain than the height handed)
+      else if Int.ofNat (min height (wrapU32 v.rpcHeight)) - (Int.ofNat firstSeen - 1) ≥ Int.ofNat confs then .confirmed
       else .wait
 
 /-- `HandleCsvTx` for one watched output: gettxout error / unknown output / too few confirmations: not yet -/
